@@ -917,6 +917,21 @@ class Interp:
     def mem_take(self, cal, e, st):
         place_e = hirq.peel_refs(e['args'][0])
         ty = hirq.strip_refs(e['args'][0].get('ty') or '')
+        if place_e['k'] == 'Path' and place_e.get('res') == 'local' and place_e['bind'] in st.env:
+            # mem::take(&mut local) / mem::replace(&mut local, v): the local holds the default (resp. v) from here on
+            b = place_e['bind']
+            old = st.env[b]
+            is_opt = ty.startswith('core::option::Option<')
+            if cal == 'core::mem::take':
+                nv = ('ctor', 'None', ()) if is_opt else ('default', ty)
+                s2 = st.set(b, nv).event(('call', self.TAKE if is_opt else cal, (old,), e))
+                return [Out('val', old, s2)]
+            outs = []
+            for o2 in self.ev(e['args'][1], st):
+                if o2.kind != 'val':
+                    outs.append(o2); continue
+                outs.append(Out('val', old, o2.st.set(b, o2.val).event(('call', cal, (old, o2.val), e))))
+            return outs
         if place_e['k'] != 'Field':
             return None
         outs = []
